@@ -150,7 +150,7 @@ def r2_store_routes(ctx, rule="C06.R2", strings_only=False):
                  if (e.kind == "gen" and e.callee.id in store_fns) or (e.kind == "push" and e.instr == "CopyAToVarPath")]
         for e in sorted(sites, key=lambda x: x.bb):
             n += 1
-            producers = _producers_before(f, evs, e.bb)
+            producers = _producers_before(f, evs, e.bb, prog)
             what = mir.short_origin(e.args[1]) if e.kind == "gen" and len(e.args) > 1 else "allocated value"
             key = "%s:%s:store(%s)" % (rule, f.name, what)
             loc = "%s:%s" % (f.file, e.line)
@@ -177,7 +177,7 @@ def r2_store_routes(ctx, rule="C06.R2", strings_only=False):
         evs = evs_of[f.id]
         for e in sorted([e for e in evs.values() if e.kind == "push" and e.instr == "CopyAToC"], key=lambda x: x.bb):
             n += 1
-            producers = _producers_before(f, evs, e.bb)
+            producers = _producers_before(f, evs, e.bb, prog)
             bad = [p for p in producers if not _producer_converts(p)]
             ctx.decide(bool(producers) and not bad, rule, "%s:%s:loop-limit" % (rule, f.name),
                        "%s:%s" % (f.file, e.line), "limit produced by the casting emitter",
@@ -201,15 +201,34 @@ def r2_store_routes(ctx, rule="C06.R2", strings_only=False):
     ctx.require(rule, 10)
 
 
-def _producers_before(f, evs, bb):
+def _type_gated_casts(prog, f, evs):
+    """switch blocks `match <ExpressionType> { BuiltIn(q) => push(Cast(q)), _ => nothing }`: the
+    other arms are types for which no numeric conversion exists (the casting emitter
+    generate_expression_instructions_casting has the same shape). Returns {switch bb: blocks of
+    the BuiltIn arm}."""
+    out = {}
+    for sw in mir.enum_switches(prog, f.body):
+        if not sw.adt.endswith("::ExpressionType") or "BuiltIn" not in sw.arms:
+            continue
+        region = mir.arm_region(f.body, sw.bb, sw.arms["BuiltIn"])
+        if any(evs.get(b) is not None and evs[b].kind == "push" and evs[b].instr == "Cast" for b in region):
+            out[sw.bb] = region
+    return out
+
+
+def _producers_before(f, evs, bb, prog=None):
     """Nearest value-producing events on each backward path from the store site."""
     body = f.body
     preds = body.preds()
+    gated = _type_gated_casts(prog, f, evs) if prog is not None else {}
     out = []
     seen = set()
-    st = list(preds.get(bb, []))
+    st = [(p, bb) for p in preds.get(bb, [])]
     while st:
-        b = st.pop()
+        b, came_from = st.pop()
+        if b in gated and came_from not in gated[b]:
+            # the path on which the value's type is not a built-in numeric/string type
+            continue
         if b in seen:
             continue
         seen.add(b)
@@ -217,7 +236,7 @@ def _producers_before(f, evs, bb):
         if e is not None and _is_producer(e):
             out.append(e)
             continue
-        st.extend(preds.get(b, []))
+        st.extend((p, b) for p in preds.get(b, []))
     return out
 
 
@@ -246,7 +265,7 @@ def _producer_converts(e):
 
 
 def r3_integer_constructors(ctx, rule="C06.R3", crates=("rusty_variant", "rusty_linter", "rusty_basic"),
-                            adt="rusty_variant::variant::Variant", floor=8):
+                            adt="rusty_variant::variant::Variant", floor=4):
     """Interval dataflow: where a payload computed by integer arithmetic is wrapped into
     Variant::VInteger / VLong, its interval (payloads of existing Variants assumed in range) must
     lie inside the QBasic range of that type."""
